@@ -244,14 +244,14 @@ class Ctx:
             shutil.rmtree(os.path.join(work, "meta"), ignore_errors=True)
         return r
 
-    def apalache_inductive(self, module, inv="IndInv", cinit="CInit", init="Init", timeout=600):
+    def apalache_inductive(self, module, inv="IndInv", cinit="CInit", init="Init", indinit=None, timeout=600):
         """Apalache (symbolic): `inv` holds initially and is preserved by every step from ANY state satisfying it - an
         inductive invariant, i.e. safety for executions of every length.  Raises Infra when the tool fails or refutes it
         (a specification bug, like tlc_model)."""
         work = tempfile.mkdtemp(prefix="apa-", dir=self.tmp)
         shutil.copy(os.path.join(SPEC, module + ".tla"), work)
         t0 = time.time()
-        for step, args in (("initiation", ["--init=" + init, "--length=0"]), ("consecution", ["--init=" + inv, "--length=1"])):
+        for step, args in (("initiation", ["--init=" + init, "--length=0"]), ("consecution", ["--init=" + (indinit or inv), "--length=1"])):
             cmd = ["apalache-mc", "check", "--cinit=" + cinit, "--inv=" + inv] + args + ["--out-dir=" + os.path.join(work, "out"), module + ".tla"]
             try:
                 p = subprocess.run(cmd, cwd=work, stdout=subprocess.PIPE, stderr=subprocess.STDOUT, universal_newlines=True, timeout=timeout,
